@@ -366,7 +366,116 @@ Definition si_detached (el' sg : node) : res node :=
   do ctx3 <- sub_ctx ctx2 (attrs_of sg);
   match kids_of sg with si :: _ => detach_sorted ctx3 si | [] => Err (EOther "no-signedinfo") end.
 
-(* ================================================================ 6. sign, then verify *)
+(* ================================================================ 6. what the verifier finds in a signed message *)
+Lemma signable_inv sp t a c0 rest :
+  signable (Elem sp t a (c0 :: rest)) = true ->
+  exists L ns,
+    is_elem c0 = true /\ In L decl_sets /\ sub_context default_ctx a = Ok (ctx_of L) /\
+    lookup_prefix (ctx_of L) sp = Some ns /\ (ns =?s ds_ns) && (t =?s "Signature") = false /\
+    quiet (ctx_of L) c0 = true /\ count_elems c0 <= 990 /\
+    (forall kids, id_of (Elem sp t a kids) = select_attr_value "ID" a) /\
+    cr_normalise (select_attr_value "ID" a) = select_attr_value "ID" a.
+Proof.
+  intros HSG. unfold signable in HSG.
+  apply andb_prop in HSG as [HSG Hcrf]. apply andb_prop in HSG as [HSG Hid]. apply andb_prop in HSG as [HSG Hcnt].
+  apply andb_prop in HSG as [HSG Hctx]. apply andb_prop in HSG as [He0 Hex].
+  apply existsb_exists in Hex as (L & HL & HLeq). apply list_attr_eqb_eq in HLeq.
+  assert (HS : sub_context default_ctx a = Ok (ctx_of L)) by (rewrite sub_context_filter, HLeq; apply ctx_of_ok; exact HL).
+  rewrite HS in Hctx. destruct (lookup_prefix (ctx_of L) sp) as [ns|] eqn:ELk; [|discriminate].
+  apply andb_prop in Hctx as [Hns HQ]. apply Bool.negb_true_iff in Hns.
+  apply Nat.leb_le in Hcnt. apply str_eqb_eq in Hid.
+  unfold cr_free in Hcrf. apply str_eqb_eq in Hcrf. rewrite Hid in Hcrf.
+  exists L, ns. repeat split; auto.
+Qed.
+
+Lemma ref_ok_built ref : cr_normalise ref = ref -> ref_ok ref (if ref =?s "" then "" else ("#" ++ ref)%string) = true.
+Proof.
+  intros Hcrf. unfold ref_ok, cr. destruct (ref =?s "") eqn:Er; [reflexivity|].
+  rewrite cr_hash, Hcrf. cbn [drop1 String.append]. rewrite String.eqb_refl. cbn. reflexivity.
+Qed.
+
+(* the inversion of Build.construct_signature + sign_placement on a signable element *)
+Lemma signed_shape cx el dv sv el' sg signed sm der :
+  construct_signature cx el (Ok (dv, sv)) = ORet (Ok (el', sg)) ->
+  sign_placement el' sg = ORet (Ok signed) ->
+  signable el' = true ->
+  ctx_certs (cx_keys cx) = Ok [der] -> der <> "" -> dv <> "" -> sv <> "" ->
+  declared_method cx = Some sm ->
+  exists sp t a c0 rest,
+    el' = Elem sp t a (c0 :: rest) /\
+    sg = sig_tree (si_el sm (canon_id (cx_canon cx))
+                         (if select_attr_value "ID" a =?s "" then "" else ("#" ++ select_attr_value "ID" a)%string)
+                         (digest_id (cx_hash cx)) dv) sv (base64_encode der) /\
+    signed = Elem sp t a (c0 :: sg :: rest).
+Proof.
+  intros HCS HPL HSG HCerts Hder Hdv0 Hsv0 Hsm.
+  unfold construct_signature in HCS. unfold declared_method in Hsm.
+  destruct (ctx_pk (cx_keys cx)) as [pk|]; [|discriminate].
+  rewrite Hsm in HCS.
+  destruct (canon_apply (cx_canon cx) el) as [el''|]; [|discriminate].
+  rewrite HCerts in HCS. inversion HCS; subst el'' sg. clear HCS.
+  destruct el' as [sp t a [|c0 rest]| | | |]; try discriminate HSG.
+  cbn [sign_placement] in HPL. inversion HPL; subst signed. clear HPL.
+  exists sp, t, a, c0, rest. cbn [attrs_of].
+  rewrite (signature_element_tree sm _ _ _ dv sv der Hdv0 Hsv0 Hder). auto.
+Qed.
+
+Lemma find_signature_signed sp t a c0 rest L ns sm cid hid dv sv c64 :
+  is_elem c0 = true -> In L decl_sets -> sub_context default_ctx a = Ok (ctx_of L) ->
+  lookup_prefix (ctx_of L) sp = Some ns -> (ns =?s ds_ns) && (t =?s "Signature") = false ->
+  quiet (ctx_of L) c0 = true -> count_elems c0 <= 990 ->
+  (forall kids, id_of (Elem sp t a kids) = select_attr_value "ID" a) ->
+  cr_normalise (select_attr_value "ID" a) = select_attr_value "ID" a ->
+  In cid c14n_ids ->
+  let ref := select_attr_value "ID" a in
+  let uri := if ref =?s "" then "" else ("#" ++ ref)%string in
+  let si := si_el sm cid uri hid dv in
+  find_signature (Elem sp t a (c0 :: sig_tree si sv c64 :: rest)) =
+  Ok (Elem sp t a (c0 :: sig_tree (snd (si_prepared cid (si_det L si))) sv c64 :: rest), found L sm cid uri hid dv sv c64).
+Proof.
+  intros He0 HL HS ELk Hns HQ Hcnt Hid Hcrf HCin ref uri si.
+  apply (find_signature_second_child sp t a c0 (sig_tree si sv c64) rest (ctx_of L) ns (("ds", ds_ns) :: ctx_of L)
+           _ _ HS ELk Hns He0 HQ Hcnt eq_refl eq_refl).
+  intros l. rewrite Hid. apply handler_on_signature; auto. apply ref_ok_built. exact Hcrf.
+Qed.
+
+(* (a) the identifiers the verifier reads back are the ones the signing context declares, and the canonicaliser it then
+   APPLIES to the message (minus the signature) is the one that identifier names *)
+Theorem verifier_reads_declared cx el dv sv el' sg signed sm der :
+  construct_signature cx el (Ok (dv, sv)) = ORet (Ok (el', sg)) ->
+  sign_placement el' sg = ORet (Ok signed) ->
+  signable el' = true ->
+  In (canon_id (cx_canon cx)) c14n_ids ->
+  ctx_certs (cx_keys cx) = Ok [der] -> der <> "" -> dv <> "" -> sv <> "" ->
+  declared_method cx = Some sm ->
+  exists root' f sinfo r,
+    find_signature signed = Ok (root', f) /\ fs_path f = [1] /\
+    sg_signed_info (fs_sig f) = Some sinfo /\
+    si_c14n_alg sinfo = canon_id (cx_canon cx) /\ si_sig_alg sinfo = sm /\ si_refs sinfo = [r] /\
+    ref_digest_alg r = digest_id (cx_hash cx) /\
+    ref_transforms r = [ {| tr_alg := alg_enveloped; tr_prefix_list := None |};
+                         {| tr_alg := canon_id (cx_canon cx); tr_prefix_list := None |} ] /\
+    transform root' (fs_path f) r = Ok (el', alg_of_id (canon_id (cx_canon cx))).
+Proof.
+  intros HCS HPL HSG HCin HCerts Hder Hdv0 Hsv0 Hsm.
+  destruct (signed_shape _ _ _ _ _ _ _ _ _ HCS HPL HSG HCerts Hder Hdv0 Hsv0 Hsm) as (sp & t & a & c0 & rest & -> & -> & ->).
+  destruct (signable_inv _ _ _ _ _ HSG) as (L & ns & He0 & HL & HS & ELk & Hns & HQ & Hcnt & Hid & Hcrf).
+  assert (Hsm' : exists pk, id_by_method pk (cx_hash cx) signature_method_ids = Some sm)
+    by (unfold declared_method in Hsm; destruct (ctx_pk (cx_keys cx)) as [pk|]; [exists pk; exact Hsm|discriminate]).
+  destruct Hsm' as [pk Hsm'].
+  destruct (sig_method_facts _ _ _ Hsm') as [Hsmcr _].
+  eexists. eexists. eexists. eexists.
+  split; [apply (find_signature_signed sp t a c0 rest L ns sm _ _ dv sv _ He0 HL HS ELk Hns HQ Hcnt Hid Hcrf HCin)|].
+  split; [reflexivity|]. split; [reflexivity|].
+  cbn [sinfo_rec si_c14n_alg si_sig_alg si_refs].
+  split; [apply (cr_c14n_id _ HCin)|]. split; [exact Hsmcr|]. split; [reflexivity|].
+  cbn [ref_digest_alg ref_transforms]. split; [apply digest_id_cr|].
+  rewrite (cr_c14n_id _ HCin). split; [reflexivity|].
+  unfold transform. cbn [ref_transforms found fs_path].
+  rewrite transforms_enveloped_then by (exact HCin || reflexivity). reflexivity.
+Qed.
+
+(* ================================================================ 7. sign, then verify *)
 Section SignVerify.
   Variable canon : canon_alg -> node -> option string.
   Variable digest : string -> string -> option string.
@@ -397,7 +506,9 @@ Section SignVerify.
     unfold pick_root. cbn [fold_left]. rewrite String.eqb_refl, Hv. reflexivity.
   Qed.
 
-  Theorem signed_message_verifies cx el dv sv el' sg signed now sm bytes d det sa p sib v :
+  (* the outcome for ANY DigestValue text base64(want): accepted exactly when [want] is the digest of the canonical bytes of
+     the message without its signature *)
+  Theorem signed_message_outcome cx el dv sv el' sg signed now sm bytes d want det sa p sib v :
     construct_signature cx el (Ok (dv, sv)) = ORet (Ok (el', sg)) ->
     sign_placement el' sg = ORet (Ok signed) ->
     signable el' = true ->
@@ -405,67 +516,48 @@ Section SignVerify.
     ctx_certs (cx_keys cx) = Ok [der] -> der <> "" ->
     ctx_signing_key (cx_keys cx) = Some (Ok key) ->
     cert_valid_at crt now = true ->
-    canon (signer_alg (cx_canon cx)) el' = Some bytes -> digest (digest_id (cx_hash cx)) bytes = Some d -> dv = base64_encode d ->
+    canon (signer_alg (cx_canon cx)) el' = Some bytes -> digest (digest_id (cx_hash cx)) bytes = Some d ->
+    dv = base64_encode want -> want <> "" ->
     declared_method cx = Some sm ->
     si_detached el' sg = Ok det -> si_prep (canon_id (cx_canon cx)) det = Ok (sa, p) -> canon sa det = Some sib ->
     sv = base64_encode (sign key sm sib) ->
     reparse bytes = Some v ->
-    dsig_validate canon digest sig_ok parse_cert reparse [crt] now signed = DOk v.
+    dsig_validate canon digest sig_ok parse_cert reparse [crt] now signed = if d =?s want then DOk v else DErr.
   Proof.
-    intros HCS HPL HSG HCin HCalg HCerts Hder Hkey Hvalid Hcan Hdig Hdv Hsm Hdet Hprep Hsib Hsv Hrep.
-    unfold construct_signature in HCS. unfold declared_method in Hsm.
-    destruct (ctx_pk (cx_keys cx)) as [pk|]; [|discriminate].
-    rewrite Hsm in HCS.
-    destruct (canon_apply (cx_canon cx) el) as [el''|]; [|discriminate].
-    rewrite HCerts in HCS. inversion HCS; subst el'' sg. clear HCS.
-    destruct el' as [sp t a [|c0 rest]| | | |]; try discriminate HSG.
-    cbn [sign_placement] in HPL. inversion HPL; subst signed. clear HPL.
-    set (cid := canon_id (cx_canon cx)) in *. set (h := cx_hash cx) in *.
-    cbn [attrs_of] in *. set (ref := select_attr_value "ID" a) in *.
-    (* signable *)
-    unfold signable in HSG.
-    apply andb_prop in HSG as [HSG Hcrf]. apply andb_prop in HSG as [HSG Hid]. apply andb_prop in HSG as [HSG Hcnt].
-    apply andb_prop in HSG as [HSG Hctx]. apply andb_prop in HSG as [He0 Hex].
-    apply existsb_exists in Hex as (L & HL & HLeq). apply list_attr_eqb_eq in HLeq.
-    assert (HS : sub_context default_ctx a = Ok (ctx_of L)) by (rewrite sub_context_filter, HLeq; apply ctx_of_ok; exact HL).
-    rewrite HS in Hctx. destruct (lookup_prefix (ctx_of L) sp) as [ns|] eqn:ELk; [|discriminate].
-    apply andb_prop in Hctx as [Hns HQ]. apply Bool.negb_true_iff in Hns.
-    apply Nat.leb_le in Hcnt. apply str_eqb_eq in Hid. fold ref in Hid.
-    unfold cr_free in Hcrf. apply str_eqb_eq in Hcrf. rewrite Hid in Hcrf.
-    (* the texts *)
-    destruct (sig_method_facts _ _ _ Hsm) as [Hsmcr Hsmk].
-    pose proof (H_digest_len _ _ _ Hdig) as Hlen.
-    assert (Hd0 : d <> "") by (intros ->; cbn in Hlen; lia).
-    assert (Hdv0 : dv <> "") by (subst dv; apply base64_nonempty; exact Hd0).
+    intros HCS HPL HSG HCin HCalg HCerts Hder Hkey Hvalid Hcan Hdig Hdv Hw0 Hsm Hdet Hprep Hsib Hsv Hrep.
+    assert (Hdv0 : dv <> "") by (subst dv; apply base64_nonempty; exact Hw0).
     assert (Hsv0 : sv <> "") by (subst sv; apply base64_nonempty; apply H_sign_nonempty).
-    rewrite (signature_element_tree sm cid h ref dv sv der Hdv0 Hsv0 Hder) in *.
+    destruct (signed_shape _ _ _ _ _ _ _ _ _ HCS HPL HSG HCerts Hder Hdv0 Hsv0 Hsm) as (sp & t & a & c0 & rest & -> & -> & ->).
+    destruct (signable_inv _ _ _ _ _ HSG) as (L & ns & He0 & HL & HS & ELk & Hns & HQ & Hcnt & Hid & Hcrf).
+    assert (Hsm' : exists pk, id_by_method pk (cx_hash cx) signature_method_ids = Some sm)
+      by (unfold declared_method in Hsm; destruct (ctx_pk (cx_keys cx)) as [pk|]; [exists pk; exact Hsm|discriminate]).
+    destruct Hsm' as [pk Hsm'].
+    destruct (sig_method_facts _ _ _ Hsm') as [Hsmcr Hsmk].
+    pose proof (H_digest_len _ _ _ Hdig) as Hlen.
+    set (cid := canon_id (cx_canon cx)) in *. set (h := cx_hash cx) in *.
+    set (ref := select_attr_value "ID" a) in *.
     set (uri := if ref =?s "" then "" else ("#" ++ ref)%string) in *.
     set (hid := digest_id h) in *.
     set (si := si_el sm cid uri hid dv) in *.
     set (c64 := base64_encode der) in *.
-    assert (Hidr : id_of (Elem sp t a (c0 :: sig_tree si sv c64 :: rest)) = ref) by exact Hid.
-    assert (Hrok : ref_ok ref uri = true).
-    { unfold ref_ok, uri, cr. destruct (ref =?s "") eqn:Er; [reflexivity|].
-      rewrite cr_hash, Hcrf. cbn [drop1 String.append]. rewrite String.eqb_refl. cbn. reflexivity. }
+    pose proof HS as HS2. apply sub_ctx_ok in HS2.
     (* the detached SignedInfo is the one of the case analysis *)
     assert (Hdet' : det = si_det L si).
     { unfold si_detached in Hdet. cbn [attrs_of kids_of sig_tree] in Hdet.
-      pose proof HS as HS2. apply sub_ctx_ok in HS2. rewrite HS2 in Hdet. cbn [bind] in Hdet.
+      rewrite HS2 in Hdet. cbn [bind] in Hdet.
       change (sub_ctx (ctx_of L) [dsdecl]) with (Ok (("ds", ds_ns) :: ctx_of L) : res nsctx) in Hdet. cbn [bind] in Hdet.
       change (sub_ctx (("ds", ds_ns) :: ctx_of L) [dsdecl]) with (Ok (("ds", ds_ns) :: ("ds", ds_ns) :: ctx_of L) : res nsctx) in Hdet. cbn [bind] in Hdet.
       unfold si in Hdet. rewrite (si_det_ok L sm cid uri hid dv HL) in Hdet. inversion Hdet. reflexivity. }
     subst det.
     assert (Hprepd : si_prepared cid (si_det L si) = (sa, p)) by (unfold si_prepared; rewrite Hprep; reflexivity).
     unfold dsig_validate, validate_res.
-    rewrite (find_signature_second_child sp t a c0 (sig_tree si sv c64) rest (ctx_of L) ns (("ds", ds_ns) :: ctx_of L)
-               (sig_tree (snd (si_prepared cid (si_det L si))) sv c64) (found L sm cid uri hid dv sv c64) HS ELk Hns He0 HQ Hcnt eq_refl eq_refl).
-    2:{ intros l. rewrite Hidr. apply handler_on_signature; assumption. }
+    pose proof (find_signature_signed sp t a c0 rest L ns sm cid hid dv sv c64 He0 HL HS ELk Hns HQ Hcnt Hid Hcrf HCin) as HFS.
+    cbv zeta in HFS. fold ref in HFS. fold uri in HFS. fold si in HFS. rewrite HFS. clear HFS.
     cbn [bind fst snd].
     rewrite (verify_embedded now (fs_sig (found L sm cid uri hid dv sv c64)) eq_refl Hder Hvalid). cbn [no_missing bind].
     set (sg' := sig_tree (snd (si_prepared cid (si_det L si))) sv c64) in *.
     set (root' := Elem sp t a (c0 :: sg' :: rest)) in *.
-    assert (Hidr' : id_of root' = ref) by exact Hid.
-    pose proof HS as HS2. apply sub_ctx_ok in HS2.
+    assert (Hidr' : id_of root' = ref) by apply Hid.
     assert (HCSI : canonical_signed_info canon root' (found L sm cid uri hid dv sv c64) = Ok sib).
     { unfold canonical_signed_info, root'. cbn [found fs_path fs_si_alg fs_si_detached parent_ctx node_at kids_of attrs_of nth_error].
       rewrite HS2. cbn [bind].
@@ -481,13 +573,59 @@ Section SignVerify.
     unfold si. rewrite (unmarshal_prepared_signed_info L sm cid uri hid dv HL HCin). fold si. cbn [bind].
     unfold pick_reference. rewrite Hidr'. cbn [sinfo_rec si_refs].
     match goal with |- context [existsb (ref_matches ref) ?l] => change (existsb (ref_matches ref) l) with (ref_ok ref uri) end.
-    rewrite Hrok. cbn [last ref_digest_value].
+    unfold uri at 1. rewrite (ref_ok_built ref Hcrf). cbn [last ref_digest_value].
     rewrite Hdv, chd_base64, base64_decode_encode.
     unfold transform. cbn [ref_transforms found fs_path]. rewrite (cr_c14n_id cid HCin).
     unfold root'. rewrite (transforms_enveloped_then cid sp t a c0 sg' rest HCin eq_refl). cbn [bind fst snd].
     rewrite <- HCalg, Hcan. cbn [ref_digest_alg]. unfold hid. rewrite digest_id_cr. fold hid. rewrite Hdig.
-    rewrite String.eqb_refl. cbn [negb].
+    destruct (d =?s want); cbn [negb]; [|reflexivity].
     assert (Hl20 : Nat.ltb (String.length d) 20 = false) by (apply Nat.ltb_ge; exact Hlen).
     rewrite Hl20, Hrep. reflexivity.
+  Qed.
+
+  (* the signer's DigestValue: accepted, and what is returned is the re-parse of exactly the canonical bytes of the message
+     without its signature *)
+  Theorem signed_message_verifies cx el dv sv el' sg signed now sm bytes d det sa p sib v :
+    construct_signature cx el (Ok (dv, sv)) = ORet (Ok (el', sg)) ->
+    sign_placement el' sg = ORet (Ok signed) ->
+    signable el' = true ->
+    In (canon_id (cx_canon cx)) c14n_ids -> signer_alg (cx_canon cx) = alg_of_id (canon_id (cx_canon cx)) ->
+    ctx_certs (cx_keys cx) = Ok [der] -> der <> "" ->
+    ctx_signing_key (cx_keys cx) = Some (Ok key) ->
+    cert_valid_at crt now = true ->
+    canon (signer_alg (cx_canon cx)) el' = Some bytes -> digest (digest_id (cx_hash cx)) bytes = Some d ->
+    dv = base64_encode d ->
+    declared_method cx = Some sm ->
+    si_detached el' sg = Ok det -> si_prep (canon_id (cx_canon cx)) det = Ok (sa, p) -> canon sa det = Some sib ->
+    sv = base64_encode (sign key sm sib) ->
+    reparse bytes = Some v ->
+    dsig_validate canon digest sig_ok parse_cert reparse [crt] now signed = DOk v.
+  Proof.
+    intros HCS HPL HSG HCin HCalg HCerts Hder Hkey Hvalid Hcan Hdig Hdv Hsm Hdet Hprep Hsib Hsv Hrep.
+    assert (Hd0 : d <> "") by (intros ->; pose proof (H_digest_len _ _ _ Hdig) as Hl; cbn in Hl; lia).
+    rewrite (signed_message_outcome cx el dv sv el' sg signed now sm bytes d d det sa p sib v); auto.
+    rewrite String.eqb_refl. reflexivity.
+  Qed.
+
+  (* (b) a DigestValue that is the digest of anything else: never accepted *)
+  Theorem tampered_digest_rejected cx el dv sv el' sg signed now sm bytes d want det sa p sib v :
+    construct_signature cx el (Ok (dv, sv)) = ORet (Ok (el', sg)) ->
+    sign_placement el' sg = ORet (Ok signed) ->
+    signable el' = true ->
+    In (canon_id (cx_canon cx)) c14n_ids -> signer_alg (cx_canon cx) = alg_of_id (canon_id (cx_canon cx)) ->
+    ctx_certs (cx_keys cx) = Ok [der] -> der <> "" ->
+    ctx_signing_key (cx_keys cx) = Some (Ok key) ->
+    cert_valid_at crt now = true ->
+    canon (signer_alg (cx_canon cx)) el' = Some bytes -> digest (digest_id (cx_hash cx)) bytes = Some d ->
+    dv = base64_encode want -> want <> "" -> d <> want ->
+    declared_method cx = Some sm ->
+    si_detached el' sg = Ok det -> si_prep (canon_id (cx_canon cx)) det = Ok (sa, p) -> canon sa det = Some sib ->
+    sv = base64_encode (sign key sm sib) ->
+    reparse bytes = Some v ->
+    dsig_validate canon digest sig_ok parse_cert reparse [crt] now signed = DErr.
+  Proof.
+    intros HCS HPL HSG HCin HCalg HCerts Hder Hkey Hvalid Hcan Hdig Hdv Hw0 Hne Hsm Hdet Hprep Hsib Hsv Hrep.
+    rewrite (signed_message_outcome cx el dv sv el' sg signed now sm bytes d want det sa p sib v); auto.
+    apply str_eqb_neq in Hne. rewrite Hne. reflexivity.
   Qed.
 End SignVerify.
